@@ -210,7 +210,7 @@ pub fn enter(ns: u64) {
 }
 
 pub fn current() -> u64 {
-    FABRIC.with(|fab| fab.borrow().current)
+    FABRIC.with(|fab| fab.try_borrow().map(|f| f.current).unwrap_or(u64::MAX))
 }
 
 /// Forget a namespace (listeners, pending endpoints, board).
